@@ -245,6 +245,71 @@ fn concat_signature(a: &Hex, abytes: &[u8], bbytes: &[u8], got: &[u8]) -> String
     "concat:wrong-bytes".to_string()
 }
 
+/// one pair (a, b): the concat itself, then the chains that start from its result
+pub fn concat_case(acc: &mut Acc, ca: &Case, cb: &Case) {
+        let (Some(a), Some(b)) = (ca.build(), cb.build()) else { return };
+        acc.evaluations += 1;
+        acc.nontrivial += 1;
+        let mut want = ca.bytes.clone();
+        want.extend_from_slice(&cb.bytes);
+        let replay = json!({"engine": "hexgen", "property": "C16", "operation": "concat", "a": ca.json(), "b": cb.json(), "expected": ref_print(&want)});
+        crate::inflight::begin_case(|| json!({"engine": "hexgen", "property": "C16", "operation": "concat", "a": ca.json(), "b": cb.json(), "kind": "crash-or-hang", "tags": ["C16"]}));
+        let (a0, b0) = (format!("{:?}", RawHex(&a)), format!("{:?}", RawHex(&b)));
+        match run(|| a.concat(&b)) {
+            Err(()) => acc.fail("C16", "concat:panic", format!("{} ({}) concat {} ({}) panicked", ref_print(&ca.bytes), ca.rep, ref_print(&cb.bytes), cb.rep), replay),
+            Ok(r) => {
+                let got = r.bytes().to_vec();
+                if got != want {
+                    let sig = concat_signature(&a, &ca.bytes, &cb.bytes, &got);
+                    acc.fail("C16", &sig, format!("{} ({}) concat {} ({}) = {} instead of {}", ref_print(&ca.bytes), ca.rep, ref_print(&cb.bytes), cb.rep, ref_print(&got), ref_print(&want)), replay.clone());
+                }
+                if format!("{:?}", RawHex(&a)) != a0 || format!("{:?}", RawHex(&b)) != b0 {
+                    acc.fail("C16", "concat:operand-changed", format!("concat changed an operand: {} / {}", ref_print(&ca.bytes), ref_print(&cb.bytes)), replay.clone());
+                }
+                // chains: the result, edited in place through IndexMut, is the left operand of the next
+                // concat (what counts are the bytes it holds now); then the result is dropped and a fresh
+                // value of the same length takes its place
+                let rlen = r.len();
+                let mut r2 = r;
+                if rlen > 0 {
+                    let _ = run(|| {
+                        r2[0] ^= 0xFF;
+                        r2[rlen - 1] = r2[rlen - 1].wrapping_add(0x31);
+                    });
+                }
+                let base = r2.bytes().to_vec();
+                for c in [b.clone(), Hex::from_slice(&[0xE1, 0xE2]), Hex::from_slice(&[0xD1; 9])] {
+                    acc.evaluations += 1;
+                    let mut want2 = base.clone();
+                    want2.extend_from_slice(c.bytes());
+                    match run(|| r2.concat(&c)) {
+                        Err(()) => acc.fail("C16", "concat:panic-in-chain", format!("({} concat {}), edited in place, concat {} panicked", ref_print(&ca.bytes), ref_print(&cb.bytes), ref_print(c.bytes())), replay.clone()),
+                        Ok(r3) => {
+                            let got = r3.bytes().to_vec();
+                            if got != want2 {
+                                let sig = concat_signature(&r2, &base, c.bytes(), &got);
+                                let sig = if sig.starts_with("concat:inline-left-shorter") { sig } else { "concat:wrong-result-in-chain".to_string() };
+                                acc.fail("C16", &sig, format!("r = {} ({}) concat {} ({}); r edited in place to {}; r concat {} = {} instead of {}", ref_print(&ca.bytes), ca.rep, ref_print(&cb.bytes), cb.rep, ref_print(&base), ref_print(c.bytes()), ref_print(&got), ref_print(&want2)), replay.clone());
+                            }
+                        }
+                    }
+                }
+                drop(r2);
+                if rlen > 8 {
+                    acc.evaluations += 1;
+                    let fresh = Hex::from_vec(vec![0x5A; rlen]);
+                    let mut want3 = vec![0x5A; rlen];
+                    want3.extend_from_slice(&cb.bytes);
+                    if let Ok(r4) = run(|| fresh.concat(&b)) {
+                        if r4.bytes() != want3.as_slice() {
+                            acc.fail("C16", "concat:wrong-result-after-drop", format!("after an earlier result of {rlen} bytes was dropped, a fresh value of {rlen} bytes 5A concat {} = {} instead of {}", ref_print(&cb.bytes), ref_print(r4.bytes()), ref_print(&want3)), replay.clone());
+                        }
+                    }
+                }
+            }
+        }
+}
+
 pub fn run_c16(tier: &str) -> Outcome {
     let t0 = Instant::now();
     let max_len = if crate::props::quick(tier) { 17 } else { 33 };
@@ -266,32 +331,12 @@ pub fn run_c16(tier: &str) -> Outcome {
         let (ca, cb0) = (&dom[k / n], &dom[k % n]);
         // make b's bytes distinct from a's (00 stays 00: an all-zero operand is still an operand)
         let cb = Case { bytes: cb0.bytes.iter().map(|x| if *x == 0 { 0 } else { x.wrapping_add(0x80) }).collect(), rep: cb0.rep };
-        let (Some(a), Some(b)) = (ca.build(), cb.build()) else { return };
-        acc.evaluations += 1;
-        acc.nontrivial += 1;
-        let mut want = ca.bytes.clone();
-        want.extend_from_slice(&cb.bytes);
-        let replay = json!({"engine": "hexgen", "property": "C16", "operation": "concat", "a": ca.json(), "b": cb.json(), "expected": ref_print(&want)});
-        crate::inflight::begin_case(|| json!({"engine": "hexgen", "property": "C16", "operation": "concat", "a": ca.json(), "b": cb.json(), "kind": "crash-or-hang", "tags": ["C16"]}));
-        let (a0, b0) = (format!("{:?}", RawHex(&a)), format!("{:?}", RawHex(&b)));
-        match run(|| a.concat(&b)) {
-            Err(()) => acc.fail("C16", "concat:panic", format!("{} ({}) concat {} ({}) panicked", ref_print(&ca.bytes), ca.rep, ref_print(&cb.bytes), cb.rep), replay),
-            Ok(r) => {
-                let got = r.bytes().to_vec();
-                if got != want {
-                    let sig = concat_signature(&a, &ca.bytes, &cb.bytes, &got);
-                    acc.fail("C16", &sig, format!("{} ({}) concat {} ({}) = {} instead of {}", ref_print(&ca.bytes), ca.rep, ref_print(&cb.bytes), cb.rep, ref_print(&got), ref_print(&want)), replay.clone());
-                }
-                if format!("{:?}", RawHex(&a)) != a0 || format!("{:?}", RawHex(&b)) != b0 {
-                    acc.fail("C16", "concat:operand-changed", format!("concat changed an operand: {} / {}", ref_print(&ca.bytes), ref_print(&cb.bytes)), replay);
-                }
-            }
-        }
+        concat_case(acc, ca, &cb);
         if k % 997 == 0 {
             acc.sample(json!({"a": ref_print(&ca.bytes), "a_representation": ca.rep, "b": ref_print(&cb.bytes), "b_representation": cb.rep}));
         }
     });
-    let rule = format!("every pair (a,b) of byte strings of length 0..={max_len} in every representation (from_slice, Hex::Bytes with non-zero padding, Hex::Vector), three contents per length (position-distinct bytes, all 00, all 7F/FF); oracle: bytes(a.concat(b)) == a ++ b, a and b unchanged in bytes and representation. distinct_nontrivial = distinct (a,b) pairs");
+    let rule = format!("every pair (a,b) of byte strings of length 0..={max_len} in every representation (from_slice, Hex::Bytes with non-zero padding, Hex::Vector), three contents per length (position-distinct bytes, all 00, all 7F/FF); oracle: bytes(a.concat(b)) == a ++ b, a and b unchanged in bytes and representation; PLUS chains: the result edited in place through IndexMut (first and last byte) is concatenated with b, with 2 and with 9 other bytes (== its present bytes ++ c), then dropped, and a fresh value of the same length is concatenated with b. distinct_nontrivial = distinct (a,b) pairs");
     super::outcome("C16", tier, "exploration", &rule, acc, true, json!({}), t0.elapsed().as_secs_f64(), vec![], vec![])
 }
 
@@ -323,24 +368,16 @@ pub fn replay(v: &Value) -> i32 {
     match v["operation"].as_str().unwrap_or("") {
         "concat" => {
             let (ca, cb) = (case_from(&v["a"]), case_from(&v["b"]));
-            let (Some(a), Some(b)) = (ca.build(), cb.build()) else { return 2 };
-            let mut want = ca.bytes.clone();
-            want.extend_from_slice(&cb.bytes);
-            match run(|| a.concat(&b)) {
-                Err(()) => {
-                    println!("REPRODUCED property=C16: concat panicked");
-                    1
-                }
-                Ok(r) => {
-                    println!("{} concat {} = {} (expected {})", ref_print(&ca.bytes), ref_print(&cb.bytes), ref_print(r.bytes()), ref_print(&want));
-                    if r.bytes() == want.as_slice() {
-                        println!("NOT REPRODUCED property=C16");
-                        0
-                    } else {
-                        println!("REPRODUCED property=C16 signature={}", concat_signature(&a, &ca.bytes, &cb.bytes, r.bytes()));
-                        1
-                    }
-                }
+            concat_case(&mut acc, &ca, &cb);
+            for f in &acc.failures {
+                println!("  [{}] {}", f.signature, f.summary);
+            }
+            if acc.fail_total > 0 {
+                println!("REPRODUCED property=C16 signature={}", acc.failures[0].signature);
+                1
+            } else {
+                println!("NOT REPRODUCED property=C16");
+                0
             }
         }
         "eq" => {
